@@ -1,6 +1,7 @@
 """GenStreams (C10): the comparisons that decide lifetime / linger expiry of item streams in
 Daemon._housekeeping and the linger test of Daemon._clientDisconnect (Pyro5/server.py), and the ITER_* defaults
-(Pyro5/configure.py).  Anything not of the recognised shape fails closed.
+(Pyro5/configure.py), and the except-clauses of _StreamResultIterator.__next__ (Pyro5/client.py: which exception
+classes make the client iterator drop its proxy reference).  Anything not of the recognised shape fails closed.
 
 Recognised:
   <period> = time.time() - info[K]             (K = 1 creation stamp, K = 2 linger stamp; also written inline)
@@ -84,7 +85,66 @@ def analyse(func, names):
     return res
 
 
-@generator("GenStreams", "Pyro5/server.py", "Pyro5/configure.py")
+COMM_CLASSES = {"CommunicationError", "ConnectionClosedError", "TimeoutError", "ProtocolError", "MessageTooLargeError"}
+
+
+def next_drop_policy(func):
+    """_StreamResultIterator.__next__: which exception classes make it drop its proxy reference.
+    Recognised: the `..._pyroInvoke("get_next_stream_item", ...)` call sits directly in the body of at most one
+    `try`; every handler is `except <classes>: [self.proxy = None] raise` (bare re-raise, nothing swallowed)."""
+    calls = [n for n in ast.walk(func) if isinstance(n, ast.Call) and isinstance(n.func, ast.Attribute) and n.func.attr == "_pyroInvoke"
+             and n.args and isinstance(n.args[0], ast.Constant) and n.args[0].value == "get_next_stream_item"]
+    need(len(calls) == 1, "__next__ does not call _pyroInvoke(\"get_next_stream_item\", ...) exactly once")
+    tries = [t for t in ast.walk(func) if isinstance(t, ast.Try) and any(calls[0] is n for st in t.body for n in ast.walk(st))]
+    need(len(tries) <= 1, "the get_next_stream_item call is nested in several try statements")
+    pol = {"stop": False, "raised": False, "error": False, "comm": False}
+    names = []
+    if not tries:
+        return pol, names
+    t = tries[0]
+    need(not t.finalbody and not t.orelse, "unrecognised try/else/finally around the get_next_stream_item call")
+    for h in t.handlers:
+        body = list(h.body)
+        need(body and isinstance(body[-1], ast.Raise) and body[-1].exc is None, "an except-clause of __next__ does not end in a bare raise")
+        drops = False
+        for st in body[:-1]:
+            ok = isinstance(st, ast.Assign) and len(st.targets) == 1 and isinstance(st.targets[0], ast.Attribute) \
+                and isinstance(st.targets[0].value, ast.Name) and st.targets[0].value.id == "self" and st.targets[0].attr == "proxy" \
+                and isinstance(st.value, ast.Constant) and st.value.value is None
+            need(ok, "unrecognised statement in an except-clause of __next__")
+            drops = True
+        if not drops:
+            continue
+        if h.type is None:
+            classes = ["BaseException"]
+        elif isinstance(h.type, ast.Tuple):
+            classes = [e.attr if isinstance(e, ast.Attribute) else getattr(e, "id", None) for e in h.type.elts]
+        else:
+            classes = [h.type.attr if isinstance(h.type, ast.Attribute) else getattr(h.type, "id", None)]
+        for c in classes:
+            need(isinstance(c, str), "unrecognised exception class expression in __next__")
+            names.append(c)
+            if c == "StopIteration":
+                pol["stop"] = True
+            elif c == "GeneratorExit":
+                pass
+            elif c in ("Exception", "BaseException"):
+                pol.update(stop=True, raised=True, error=True, comm=True)
+            elif c == "PyroError":
+                pol.update(error=True, comm=True)
+            elif c in COMM_CLASSES:
+                pol["comm"] = True
+            else:
+                import builtins
+                need(isinstance(getattr(builtins, c, None), type) and issubclass(getattr(builtins, c), BaseException),
+                     "unknown exception class %s in __next__" % c)
+                if issubclass(getattr(builtins, c), Exception):
+                    pol["raised"] = True   # a builtin error class: errors raised by the remote iterator
+                # KeyboardInterrupt / SystemExit: never produced by the remote iterator, nothing to model
+    return pol, names
+
+
+@generator("GenStreams", "Pyro5/server.py", "Pyro5/configure.py", "Pyro5/client.py")
 def gen_streams(tree):
     mod, _ = parse(tree, "Pyro5/server.py")
     hk = find_func(mod, "_housekeeping", "Daemon")
@@ -119,7 +179,10 @@ def gen_streams(tree):
         v = defaults[k]
         need(isinstance(v, (int, float)) and not isinstance(v, bool) and v >= 0 and v == int(v),
              "%s default %r is not a non-negative whole number of seconds" % (k, v))
-    out = HEADER % "Pyro5/server.py, Pyro5/configure.py"
+    cmod, _ = parse(tree, "Pyro5/client.py")
+    nx = find_func(cmod, "__next__", "_StreamResultIterator")
+    pol, polnames = next_drop_policy(nx)
+    out = HEADER % "Pyro5/server.py, Pyro5/configure.py, Pyro5/client.py"
     out += "(* _housekeeping: a stream is past its lifetime when  LIFETIME %s now - created   (true = strict) *)\n" % ("<" if life["expiry"][0][0] else "<=")
     out += "Definition gen_lifetime_strict : bool := %s.\n" % cbool(life["expiry"][0][0])
     out += "(* _housekeeping: a lingering stream is dropped when  now - linger_since %s LINGER *)\n" % (">" if ling["expiry"][0][0] else ">=")
@@ -130,6 +193,11 @@ def gen_streams(tree):
     out += "Definition default_streaming : bool := %s.\n" % cbool(defaults["ITER_STREAMING"])
     out += "Definition default_lifetime : N := %s.\n" % cN(int(defaults["ITER_STREAM_LIFETIME"]))
     out += "Definition default_linger : N := %s.\n" % cN(int(defaults["ITER_STREAM_LINGER"]))
-    return out, {"lifetime_strict": life["expiry"][0][0], "linger_strict": ling["expiry"][0][0], "defaults": defaults,
+    out += "(* _StreamResultIterator.__next__ drops its proxy reference (ends for good) on: %s *)\n" % (", ".join(polnames) or "nothing")
+    out += "Definition gen_drop_stop : bool := %s.    (* StopIteration *)\n" % cbool(pol["stop"])
+    out += "Definition gen_drop_raised : bool := %s.  (* an error raised by the remote iterator *)\n" % cbool(pol["raised"])
+    out += "Definition gen_drop_error : bool := %s.   (* PyroError 'item stream terminated' *)\n" % cbool(pol["error"])
+    out += "Definition gen_drop_comm : bool := %s.    (* CommunicationError (connection lost, timeout) *)\n" % cbool(pol["comm"])
+    return out, {"next_policy": pol, "next_classes": polnames, "lifetime_strict": life["expiry"][0][0], "linger_strict": ling["expiry"][0][0], "defaults": defaults,
                  "ast_sha": {"_housekeeping": ast_sha(hk), "_clientDisconnect": ast_sha(cd), "get_next_stream_item": ast_sha(nxt),
-                             "close_stream": ast_sha(cls)}}
+                             "close_stream": ast_sha(cls), "__next__": ast_sha(nx)}}
